@@ -58,7 +58,9 @@ def array_from_list(a, dtype=None):
 
     def fn(*idx):
         if all(isinstance(i, int) for i in idx):
-            return flat[tuple(idx)]
+            # total on purpose: reads of the program are bounds-checked where they happen; this function is also
+            # evaluated at out-of-range points by guarded (if-then-else) updates, where the value is irrelevant
+            return flat.get(tuple(idx), next(iter(flat.values())) if flat else 0)
         r = None
         for k, v in flat.items():
             r = v if r is None else ite(And(*[i == kk for i, kk in zip(idx, k)]), v, r)
@@ -133,9 +135,11 @@ def m_empty(interp, shape, dtype=float, **kw):
 @model(np.zeros)
 def m_zeros(interp, shape, dtype=float, **kw):
     shape = tuple(interp.iterate(shape)) if isinstance(shape, (list, tuple)) else (shape,)
-    if not contains_sym(shape):
+    if not contains_sym(shape) and np.dtype(dtype).kind in "iub":
         return _native(np.zeros, shape, dtype=dtype)
-    return SArr.from_fn(lambda *i: 0, shape, dtype)
+    # float arrays are functional from the start (like np.empty), so that symbolic values can be stored into them
+    z = 0.0 if np.dtype(dtype).kind == "f" else 0
+    return SArr.from_fn(lambda *i: z, shape, dtype)
 
 
 @model(np.reshape)
